@@ -295,7 +295,7 @@ def exRec : Rec := ⟨List.replicate 40 49, List.replicate 64 50, List.replicate
 def exIdent : Ident := ⟨List.replicate 20 0x11, List.replicate 32 0x22, List.replicate 24 0x44, 1⟩
 /-- a state directory with the record, a bridge-line file and a torn leftover temp file -/
 def exDir : Dir := [(sfN, encState exRec), (bfN, ascii "Bridge …"), (tmpName sfN, ascii "{\"node-id\":\"11")]
-def exCfg (fixed : Bool) : Cfg := ⟨fixed, fun _ => List.replicate 32 9⟩
+def exCfg (fixed : Bool) : Cfg := ⟨fixed, fun _ => List.replicate 32 9, ascii "# comment\\n\\n"⟩
 def exFresh : JS := ⟨List.replicate 40 53, List.replicate 64 54, List.replicate 64 55, List.replicate 48 56, 0⟩
 def exArgs : Args := ⟨none, none, none, some [50]⟩   -- iat-mode=2
 
@@ -568,6 +568,81 @@ theorem invalid_state_never_regenerated (cfg : Cfg) (s : Dir) (fresh : JS)
         have hch : iatChoice js Args.empty.iat = some js.iat := rfl
         exact finish_err2 cfg [] js _ js.iat hch hi
 
+/-! ## Write faults -/
+
+/-- **a failed or short write keeps the old file** (`atomicfile.WriteFile` as it is): when the
+    write of the temp file fails after `k` bytes, then in every crash state of the call — and
+    after it — the target is untouched, nothing was renamed, and the temp file is removed. -/
+theorem write_fault_keeps_old (d : Dir) (k : Nat) (n : Name) (c : Bytes)
+    (hf : (writeFileLim k n c).2 = false) :
+    (∀ s ∈ crashStates d (writeFileLim k n c).1, get s n = get d n) ∧
+    get (run d (writeFileLim k n c).1) (tmpName n) = none ∧
+    (∀ op ∈ (writeFileLim k n c).1, ∀ a b, op ≠ .rename a b) := by
+  refine ⟨writeFileLim_fault_untouched d k n n c hf (tmp_ne n).symm,
+    writeFileLim_fault_tmp_removed d k n c hf, ?_⟩
+  have hlen : ¬ c.length ≤ k := by
+    intro h; rw [writeFileLim_ok k n c h] at hf; cases hf
+  rw [writeFileLim_fault k n c hlen]
+  intro op hop a b
+  by_cases hk : k = 0 <;> simp [hk] at hop <;> rcases hop with rfl | rfl | rfl | rfl <;> simp
+
+/-- the fault does occur: a 291-byte record under a limit of 100 bytes -/
+example : (writeFileLim 100 sfN (List.replicate 291 65)).2 = false ∧
+    (writeFileLim 100 sfN (List.replicate 291 65)).1.length = 4 := by decide +kernel
+
+/-- **a start hit by write faults never damages the persisted identity**: with every file write
+    of the start subject to an arbitrary size limit `k`, every crash state of the start (its
+    final state included) recovers to the old record or to the complete record the start was
+    about to persist. -/
+theorem faulted_start_keeps_identity (cfg : Cfg) (k : Nat) (d : Dir) (i0 : Ident) (a : Args)
+    (fresh : JS) (h : recover d = .valid i0) (ha : a.iatOnly) :
+    ∀ s ∈ crashStates d (startLim cfg k d a fresh).ops,
+      recover s = .valid i0 ∨ recover s = .valid (specStep i0 a).2 := by
+  obtain ⟨c, js, hc, hl, hi, hp⟩ := recover_valid d i0 h
+  have hspec := (start_of_valid cfg d i0 a fresh h ha).2
+  rw [start_loaded cfg d a fresh c js ha hc hl] at hspec
+  have hst : startLim cfg k d a fresh = finishLim cfg k [] js a.iat := by
+    obtain ⟨h1, h2, h3⟩ := ha
+    unfold startLim
+    simp only [sfN] at hc
+    simp only [h1, h2, h3, hc, hl]
+  rw [hst]
+  intro s hsm
+  unfold finishLim at hsm
+  cases hch : iatChoice js a.iat with
+  | none =>
+    simp only [hch, crashStates, List.mem_singleton] at hsm
+    subst hsm; exact Or.inl h
+  | some v =>
+    simp only [hch] at hsm
+    cases hid : identOfJS { js with iat := v } with
+    | none =>
+      simp only [hid, crashStates, List.mem_singleton] at hsm
+      subst hsm; exact Or.inl h
+    | some i =>
+      simp only [hid, List.nil_append] at hsm
+      rw [finish_ok cfg [] js a.iat v i hch hid] at hspec
+      have hnew : ∀ s' : Dir, get s' sfN = some (encState (recOfJS { js with iat := v })) →
+          recover s' = .valid (specStep i0 a).2 := by
+        intro s' hg
+        rw [← hspec]
+        apply recover_congr
+        rw [hg]; exact (finish_ok_get cfg d [] _ _).symm
+      by_cases hb : (writeFileLim k Consts.Obfs4.bridgeFile (bridgeText cfg i)).2 = true
+      · simp only [hb, if_true] at hsm
+        rcases (mem_crashStates_append _ _ _ _).mp hsm with h1 | h2
+        · left
+          rw [recover_congr s d (writeFileLim_other d k bfN sfN _ sf_ne_bf sf_ne_bftmp s h1)]; exact h
+        · have hd1 : get (run d (writeFileLim k bfN (bridgeText cfg i)).1) sfN = get d sfN :=
+            writeFileLim_other d k bfN sfN _ sf_ne_bf sf_ne_bftmp _ (run_mem_crashStates _ _)
+          rcases writeFileLim_old_or_new _ k sfN _ s h2 with ho | ⟨_, hn⟩
+          · left; rw [recover_congr s d (ho.trans hd1)]; exact h
+          · right; exact hnew s hn
+      · simp only [hb] at hsm
+        simp only [Bool.false_eq_true, if_false] at hsm
+        left
+        rw [recover_congr s d (writeFileLim_other d k bfN sfN _ sf_ne_bf sf_ne_bftmp s hsm)]; exact h
+
 /-! ## The code before the repair: truncate in place -/
 
 /-- **truncate-in-place is unsafe** (the code before the repair, `os.WriteFile`): every
@@ -595,7 +670,7 @@ theorem truncate_in_place_unsafe (cfg : Cfg) (hfx : cfg.fixed = false) (d : Dir)
       rw [finish_ok cfg [] js a.iat v i' hch hid, hfx]
       simp only [List.nil_append]
       let C := encState (recOfJS { js with iat := v })
-      let d1 := run d (writeFile false bfN (bridgeLine cfg i'))
+      let d1 := run d (writeFile false bfN (bridgeText cfg i'))
       refine ⟨C, ?_, ?_⟩
       · rw [run_append]; exact run_writeFile_self _ _ _ _
       · intro j hj
@@ -605,7 +680,7 @@ theorem truncate_in_place_unsafe (cfg : Cfg) (hfx : cfg.fixed = false) (d : Dir)
         -- the crash state: bridge file rewritten, state file truncated, j bytes written
         have key : ∀ s : Dir, get s sfN = some (C.take j) →
             s ∈ crashStates d1 (writeFile false sfN C) →
-            ∃ s ∈ crashStates d (writeFile false bfN (bridgeLine cfg i') ++ writeFile false sfN C),
+            ∃ s ∈ crashStates d (writeFile false bfN (bridgeText cfg i') ++ writeFile false sfN C),
               get s sfN = some (C.take j) ∧ recover s = .unparsable ∧
               ∀ (cfg' : Cfg) (a' : Args) (fresh' : JS), a'.iatOnly → start cfg' s a' fresh' = ⟨[], .err⟩ := by
           intro s hg hm
